@@ -194,6 +194,19 @@ inductive Err
 
 def verdictAt (vs : List Verdict) (i : Nat) : Verdict := (vs[i]?).getD .missing
 
+/-- what the body of handleResponse's loop does for one partition that is in the request, given the
+    coordinator's entry for it: (updateCommitted is called, the coordinator is released, the error handed to
+    the partition).  Bridge: equal to the regenerated loop body (`Bridge.C06.respBody_in_request`). -/
+def verdictEffects : Verdict → Bool × Bool × Option Err
+  | .missing => (false, false, some .incomplete)
+  | .code k =>
+    match classify k with
+    | .commit => (true, false, none)
+    | .redispatch => (false, true, none)
+    | .tellUser => (false, false, some (.code k))
+    | .nothing => (false, false, none)
+    | .tellRedispatch => (false, true, some (.code k))
+
 /-- the partition-level meaning of a reply for partition `i` -/
 def pverdictFor (r : Reply) (i : Nat) : PVerdict :=
   match r with
